@@ -592,6 +592,9 @@ func (self *_Compiler) rescue(ep *error) {
 	if val := recover(); val != nil {
 		if err, ok := val.(error); ok {
 			*ep = err
+		} else if msg, ok := val.(string); ok {
+			/* compile-time limits ("type nesting too deep") are reported, not thrown */
+			*ep = fmt.Errorf("sonic: %s", msg)
 		} else {
 			panic(val)
 		}
